@@ -163,6 +163,6 @@ def run(ctx):
                 s3.violate({"src": "\n".join(inline), "twin": "\n".join(twin), name: "\n".join(runl), "history": f"an earlier assembly of the twin failed while {name} was " + ("missing" if broken is None else "broken: " + broken.strip())},
                            "same output", (b["status"], b.get("exc"), (b.get("error") or "")[:100]), "moving statements into an included file changes the output once an earlier assembly failed inside that file")
         s3.sample({"shape": "first: RUN between: … RUN { inner: RUN } done:"})
-        return [s, s2, s3]
+        return [s, s2, s3, run_.repeat_stream()]
     finally:
         run_.close()
